@@ -11,6 +11,7 @@ TARGETS = {
     "revert-13cbc3c": ["C06", "C04"], "revert-a5a64b9": ["C14", "C04"], "revert-f763528": ["C09", "C10", "C04"], "revert-1e8145f": ["C09"], "revert-4629932": ["C09"],
     "revert-47ccb3d-global-extractors": ["C13"], "revert-a74582e-casefold": ["C13"], "revert-8633444": ["C15"], "revert-3f213ac": ["C14"], "revert-6039c69": ["C17"],
     "revert-19133e7": ["C13", "C04"], "revert-4c3914e": ["C17"], "revert-b690870": ["C16", "C06"], "revert-268c40b": ["C03"], "revert-7014b83": ["C19"], "revert-15c731a": ["C09", "C04"],
+    "C04-3A": ["C04", "C06"], "C04-3B": ["C04", "C12"], "C01-3A": ["C01", "C17"], "C01-3B": ["C01", "C16", "C15"], "refactor-R2-B": ["C03", "C19", "C18", "C04"],
     "C05-2B": ["C05", "C07"], "C07-2B": ["C07"], "C10-2B": ["C10"], "C09-2B": ["C09"],
     "C13-A-fold-order": ["C13"], "mine-C01-noescape": ["C01"], "mine-C01-page5": ["C01"], "mine-C20-noplus": ["C20"], "mine-C20-underscore1": ["C20"],
     "C04-A": ["C04", "C09"], "C04-B": ["C04", "C07"], "C05-A": ["C05", "C07"], "C05-B": ["C05", "C07"], "C06-A": ["C06", "C16"], "C06-B": ["C06", "C16"],
@@ -25,7 +26,7 @@ if sel:
 out_path = os.path.join(ROOT, "seeded", "MATRIX.json")
 matrix = json.load(open(out_path)) if os.path.exists(out_path) else {}
 for n in names:
-    if n.startswith("refactor-"):
+    if n.startswith("refactor-") and n not in TARGETS:
         # behaviour-preserving refactorings: EVERY check must stay quiet (no VIOLATION)
         checks = ["C%02d" % k for k in range(1, 21) if k != 11]
     else:
